@@ -6,6 +6,21 @@ from gen import CheckerError
 _CRATE_RE = re.compile(r'(?<![A-Za-z0-9_])crate::')
 
 
+_CENSUS = None
+
+
+def _census():
+    """Reviewed function census (rules/known_functions.json); functions outside it are transparent helpers (lib/inline.py)."""
+    global _CENSUS
+    if _CENSUS is None:
+        p = os.path.join(os.path.dirname(os.path.dirname(os.path.abspath(__file__))), "rules", "known_functions.json")
+        try:
+            _CENSUS = {k: set(v) for k, v in json.load(open(p)).items()}
+        except FileNotFoundError:
+            _CENSUS = {}
+    return _CENSUS
+
+
 class Crate:
     def __init__(self, path):
         raw = open(path).read()
@@ -20,6 +35,11 @@ class Crate:
         self.traits = {t["path"]: t for t in d["traits"]}
         self.decls = {x["path"]: x for x in d["decls"]}
         self.layouts = {l["ty"]: l for l in d["layouts"]}
+        self.inlined = []
+        known = _census().get(self.name)
+        if known is not None and not os.environ.get("VERIF_NO_INLINE"):
+            import inline
+            d["bodies"] = inline.inline_unknown(d["bodies"], known, self.inlined)
         self.bodies = [Body(b, self) for b in d["bodies"]]
         self.by_path = {}
         for b in self.bodies:
@@ -323,14 +343,16 @@ class Body:
             self._defs = d
         return self._defs.get(local, [])
 
-    def origin(self, op, depth=12):
+    def origin(self, op, depth=12, pending=None):
         """Follow copies/moves/refs/derefs/casts of an operand back to its source.
         Returns a descriptor dict:
           {'k':'call','bb':..,'t':term} | {'k':'place','p':place} | {'k':'const',...} |
           {'k':'arg','l':n} | {'k':'rvalue','r':..,'bb':..} | {'k':'multi'}
         Field projections on the way are collected in 'proj' (outermost last)."""
-        proj = []
+        proj = list(pending) if pending else []
         cur = op
+        if self.d.get("inl_rets"):
+            depth += 8
         for _ in range(depth):
             if cur is None:
                 break
@@ -350,6 +372,15 @@ class Body:
             if 1 <= l <= self.d["arg_count"]:
                 return {"k": "arg", "l": l, "proj": proj}
             ds = self.defs_of(l)
+            if proj and ds and l in self.d.get("inl_rets", ()):
+                # (only for the return slots of virtually inlined helpers, lib/inline.py)
+                # constructor / projection cancellation: `(x as V).f` or `x.f` where x was built by an aggregate.  A downcast
+                # to V selects, among several definitions, the aggregates of that variant (a value built as another variant, or
+                # the error value of a `?`, cannot be seen through that downcast).
+                nxt = _cancel(ds, proj)
+                if nxt is not None:
+                    cur, proj = nxt
+                    continue
             if len(ds) != 1:
                 return {"k": "multi" if ds else "undef", "l": l, "proj": proj, "defs": ds}
             bb, idx, r = ds[0]
@@ -367,6 +398,46 @@ class Body:
                 continue
             return {"k": "rvalue", "r": r, "bb": bb, "proj": proj, "l": l}
         return {"k": "deep", "proj": proj}
+
+
+_SUCCESS = {"Continue", "Ok", "Some"}
+
+
+def _same_variant(a, b):
+    return a == b or (a in _SUCCESS and b in _SUCCESS)
+
+
+def _cancel(ds, proj):
+    """See Body.origin: returns (operand, remaining projections) or None."""
+    e1 = proj[0]
+    if isinstance(e1, dict) and "as" in e1:
+        if len(proj) < 2 or not (isinstance(proj[1], dict) and "f" in proj[1]):
+            return None
+        cands = []
+        for bb, idx, r in ds:
+            if idx == "term":
+                f = r.get("f")
+                if f and f.get("name") == "from_residual" and e1["as"] in _SUCCESS:
+                    continue        # the error value of a `?`
+                return None
+            if r["k"] == "agg" and r.get("ak") == "adt" and r.get("variant") is not None:
+                if _same_variant(r["variant"], e1["as"]):
+                    cands.append(r)
+                continue
+            return None
+        if len(cands) == 1 and proj[1]["f"] < len(cands[0]["ops"]):
+            return cands[0]["ops"][proj[1]["f"]], proj[2:]
+        return None
+    if isinstance(e1, dict) and "f" in e1 and len(ds) == 1 and ds[0][1] != "term":
+        r = ds[0][2]
+        if r["k"] == "agg" and (r.get("ak") == "tuple" or (r.get("ak") == "adt" and e1.get("v") is None and not _is_enum_agg(r))) \
+                and e1["f"] < len(r.get("ops", [])):
+            return r["ops"][e1["f"]], proj[1:]
+    return None
+
+
+def _is_enum_agg(r):
+    return str(r.get("adt", "")).split("::")[-1] in ("Option", "Result", "ControlFlow") or r.get("is_enum")
 
 
 def callee_key(f):
